@@ -2045,7 +2045,10 @@ class ImportManager:
 
   @property
   def sorted_imports(self):
-    return sorted(self.imports, key=lambda s: s.module)
+    # `__gin__` imports must come first (they can't follow other imports).
+    return sorted(
+        self.imports,
+        key=lambda s: (not s.module.startswith('__gin__.'), s.module))
 
   def add_import(self, statement: config_parser.ImportStatement):
     """Adds a single import to this `ImportManager` instance.
